@@ -59,6 +59,13 @@ Theorem C06_init_touches_no_global : forall f, In f all_filters -> init_ok f = t
 Proof. intros f H. pose proof init_all as A. rewrite forallb_forall in A. exact (A f H). Qed.
 Print Assumptions C06_init_touches_no_global.
 
+(* 3d. Consistent configuration pairs: in every class whose __init__ derives Dt from frequency (overridable by Dt=), no per-sample
+       entry point reads `frequency`: the effective sampling step is the one attribute Dt. *)
+Theorem C06_rate_configuration_single_source : forall f u, In (f, u)
+  ((F_Madgwick, "updateIMU") :: (F_Madgwick, "updateMARG") :: framed_entry_points) -> pairs_ok f u = true.
+Proof. intros f u H. pose proof pairs_all as A. rewrite forallb_forall in A. exact (A (f, u) H). Qed.
+Print Assumptions C06_rate_configuration_single_source.
+
 (* 4. Non-interference, over the store semantics of the effect language with UNINTERPRETED value functions (mix, wr, gl, test,
       count): if the checker accepts entry point u of filter f (allowing the global state G and the extra attributes E) then,
       in two worlds that agree on instance i's configuration + carried state (+ E, G), the call returns the same value and the
